@@ -7,7 +7,8 @@
 //! The runner level can also be set by builder calls: `HX_BUILDER` holds
 //! `;`-separated calls (`sample_count=3`, `sample_size=2`, `threads=1,2`,
 //! `skip_exact=PATH`, `skip_regex=PAT`, `run_ignored`, `run_only_ignored`,
-//! `items_count=N`, `bytes_count=N`) applied before (`pre:` prefix) or after
+//! `items_count=N`, `bytes_count=N`, `skip_ext_time=true|false`,
+//! `bytes_format=binary|decimal`) applied before (`pre:` prefix) or after
 //! (`post:` prefix, the default) `config_with_args`.
 use divan::Divan;
 
@@ -283,6 +284,29 @@ mod opt {
         }
     }
 
+    /// name-value form of the attribute
+    #[divan::bench(sample_count = 1, sample_size = 1)]
+    #[ignore = "too slow for a default run"]
+    fn ign_reason() {
+        ran("hx_select_e2e::opt::ign_reason")
+    }
+
+    #[divan::bench_group(sample_count = 1, sample_size = 1)]
+    #[ignore = "whole group needs hardware"]
+    pub mod gi {
+        use super::ran;
+
+        #[divan::bench]
+        fn inherit() {
+            ran("hx_select_e2e::opt::gi::inherit")
+        }
+
+        #[divan::bench(ignore = false)]
+        fn unignored() {
+            ran("hx_select_e2e::opt::gi::unignored")
+        }
+    }
+
     #[divan::bench_group(sample_count = 4, sample_size = 2)]
     pub mod g1 {
         use super::ran;
@@ -346,6 +370,70 @@ mod opt {
     }
 }
 
+// ------------------------------------------------- C15, coarse timing -------
+// `skip_ext_time` made visible without a clock: the input generator sleeps
+// HX_SLEEP_MS (set to 50 by the stream that uses this module, 0 otherwise), the
+// budget is 100 ms and 6 samples of one iteration are requested. If time
+// external to the benchmarked function is skipped all 6 samples are taken;
+// if it counts, the budget is used up after 2 (sleeps only overshoot: 1-3).
+mod tim {
+    use super::ran;
+    use divan::Bencher;
+
+    fn slow_input() -> u8 {
+        let ms: u64 = std::env::var("HX_SLEEP_MS").ok().and_then(|s| s.parse().ok()).unwrap_or(0);
+        if ms > 0 {
+            std::thread::sleep(std::time::Duration::from_millis(ms));
+        }
+        0
+    }
+
+    #[divan::bench(skip_ext_time = true, max_time = 0.1, sample_count = 6, sample_size = 1)]
+    fn ext(bencher: Bencher) {
+        bencher.with_inputs(slow_input).bench_values(|x| {
+            ran("hx_select_e2e::tim::ext");
+            x
+        })
+    }
+
+    /// unset at every level: the default (false) applies
+    #[divan::bench(max_time = 0.1, sample_count = 6, sample_size = 1)]
+    fn noext(bencher: Bencher) {
+        bencher.with_inputs(slow_input).bench_values(|x| {
+            ran("hx_select_e2e::tim::noext");
+            x
+        })
+    }
+
+    #[divan::bench_group(skip_ext_time = true, max_time = 0.1, sample_count = 6, sample_size = 1)]
+    pub mod gse {
+        use super::{ran, slow_input};
+        use divan::Bencher;
+
+        #[divan::bench]
+        fn inherit(bencher: Bencher) {
+            bencher.with_inputs(slow_input).bench_values(|x| {
+                ran("hx_select_e2e::tim::gse::inherit");
+                x
+            })
+        }
+
+        #[divan::bench(skip_ext_time = false)]
+        fn off(bencher: Bencher) {
+            bencher.with_inputs(slow_input).bench_values(|x| {
+                ran("hx_select_e2e::tim::gse::off");
+                x
+            })
+        }
+    }
+
+    /// a bytes throughput row: `MB/s` (decimal) or `MiB/s` (binary)
+    #[divan::bench(bytes_count = 4096u64, sample_count = 1, sample_size = 1)]
+    fn bytes() {
+        ran("hx_select_e2e::tim::bytes")
+    }
+}
+
 fn apply(mut d: Divan, call: &str) -> Divan {
     let (name, val) = call.split_once('=').unwrap_or((call, ""));
     match name {
@@ -358,6 +446,12 @@ fn apply(mut d: Divan, call: &str) -> Divan {
         "run_only_ignored" => d.run_only_ignored(),
         "items_count" => d.items_count(val.parse::<u64>().unwrap()),
         "bytes_count" => d.bytes_count(val.parse::<u64>().unwrap()),
+        "skip_ext_time" => d.skip_ext_time(val == "true"),
+        "bytes_format" => d.bytes_format(if val == "binary" {
+            divan::counter::BytesFormat::Binary
+        } else {
+            divan::counter::BytesFormat::Decimal
+        }),
         "min_time" => d.min_time(std::time::Duration::from_secs_f64(val.parse().unwrap())),
         "max_time" => d.max_time(std::time::Duration::from_secs_f64(val.parse().unwrap())),
         "" => {
